@@ -419,7 +419,10 @@ func (c *Ctx) c01YSites() {
 }
 
 // c01NoErase: R8.
-func (c *Ctx) c01NoErase() {
+func (c *Ctx) c01NoErase() { c.ruleNoEraseTable("R8", "proofs", "spent table is append-only", true) }
+
+// ruleNoEraseTable: every SQL statement of the module is classified; none but SELECT / INSERT touches the table.
+func (c *Ctx) ruleNoEraseTable(rule, table, what string, schemaChecks bool) {
 	R := c.R
 	// every SQL statement in the module, also outside storage interface methods
 	type found struct {
@@ -476,13 +479,13 @@ func (c *Ctx) c01NoErase() {
 				}
 			}
 			if len(parts) == 0 {
-				R.Undecided("R8", c.P.FuncKey(f), "non-constant SQL", c.P.InstrPos(ci), "SQL text must be constant to be classified", "statement text is computed at run time")
+				R.Undecided(rule, c.P.FuncKey(f), "non-constant SQL", c.P.InstrPos(ci), "SQL text must be constant to be classified", "statement text is computed at run time")
 				continue
 			}
 			for _, text := range texts {
 				st, err := ParseSQL(text)
 				if err != nil {
-					R.Undecided("R8", c.P.FuncKey(f), "unparsed SQL", c.P.InstrPos(ci), "SQL statement must be classifiable", err.Error())
+					R.Undecided(rule, c.P.FuncKey(f), "unparsed SQL", c.P.InstrPos(ci), "SQL statement must be classifiable", err.Error())
 					continue
 				}
 				all = append(all, found{st, c.P.InstrPos(ci), c.P.FuncKey(f)})
@@ -491,17 +494,17 @@ func (c *Ctx) c01NoErase() {
 	}
 	bad := 0
 	for _, f := range all {
-		if f.st.Table == "proofs" && f.st.Verb != "SELECT" && f.st.Verb != "INSERT" {
+		if f.st.Table == table && f.st.Verb != "SELECT" && f.st.Verb != "INSERT" && (table == "proofs" || f.st.Verb != "UPDATE") {
 			bad++
-			R.Check("R8", f.fn, f.st.Verb+" proofs", f.site, false, "spent table is append-only", "statement "+f.st.Raw)
+			R.Check(rule, f.fn, f.st.Verb+" "+table, f.site, false, what, "statement "+f.st.Raw)
 		}
 	}
-	R.Check("R8", "module", "statements on spent table", "-", bad == 0, fmt.Sprintf("all %d SQL statements of the module classified; none deletes/updates/drops the spent table", len(all)), "see the individual statements")
-	if c.V.Schema != nil {
-		R.Check("R8", "schema", "destructive migrations", "migrations", len(c.V.Schema.Destructive) == 0,
+	R.Check(rule, "module", "statements on "+table, "-", bad == 0, fmt.Sprintf("all %d SQL statements of the module classified; none deletes/drops rows of "+table+"", len(all)), "see the individual statements")
+	if c.V.Schema != nil && schemaChecks {
+		R.Check(rule, "schema", "destructive migrations", "migrations", len(c.V.Schema.Destructive) == 0,
 			"no migration deletes or rewrites ledger rows", strings.Join(c.V.Schema.Destructive, " ; "))
 		_, ok := c.V.Schema.Tables["proofs"]
-		R.Check("R8", "schema", "spent table kept", "migrations", ok, "the spent table survives all migrations", "table proofs missing after folding")
+		R.Check(rule, "schema", "spent table kept", "migrations", ok, "the spent table survives all migrations", "table proofs missing after folding")
 	}
 }
 
